@@ -396,7 +396,10 @@ CLAIMED["C21"] = dict(
          "rotations. For rotations that do not preserve the span of a hybrid set the matrix is a compression and NOT orthogonal: the property as "
          "stated does not hold there (known finding K3, recorded). OrbitalRotator.__call__: local bases enter as basis2 R basis1^T, per-(rotation, "
          "shell) cache, block-diagonal composite shells. The f-shell composition law is covered by the stand-in only (installed code, random proper "
-         "and improper rotations); the Wannier-function representation matrices of Dwann are not covered.",
+         "and improper rotations). The Wannier-function representation: the real Dwann.get_on_points on SYMBOLIC k for orbits of three sites (every site "
+         "permutation, three kinds of operation): a block permutation of the orbital matrices with the phase e^{2 pi i symop(k).T}, zero elsewhere, hence "
+         "unitary for every k given orthogonal orbital blocks and a bijective site map; the real Dwann.__init__ (site maps, translations, spinor part) "
+         "only through the stand-in (three structures incl. spinors: unitary at random k, sites mapped onto their images).",
     note=TB + "; sympy's polynomial arithmetic is the computation the code itself relies on (trusted); identities verified on the cone over SO(3) hold on SO(3) by homogeneity")
 
 CLAIMED["C20"] = dict(
